@@ -237,6 +237,10 @@ def value_json(v):
 def gen_unit(seed, i):
     r = rng(seed, "print-unit", i)
     headers = r.sample(HEADERS, r.randint(1, 5))
+    if r.random() < 0.2:
+        # header names that are numbers and not their own position (year columns, columns numbered from 1, in reverse):
+        # a reference by such a name reads the column of that name, not the column at that index
+        headers = r.choice([["region", "2023", "2024"], ["1", "2", "3"], ["2", "1", "0"], ["a", "0", "1"], ["3", "b"]])
     line = [r.choice(["", "x1", "two words", "7", " t "]) for _ in range(r.choice([len(headers), len(headers), max(0, len(headers) - 1), len(headers) + 1]))]
     variables = {nm: gen_value(r) for nm in r.sample(["x", "v", "s", "the var", "n"], r.randint(1, 4))}
     metadata = {nm: r.choice(["m1", "some words", ""]) for nm in r.sample(["id", "name", "note"], r.randint(1, 3))}
